@@ -182,3 +182,32 @@ VF_SUB(cutchoose_prover_with_noninjective_map, 400, 8000) {
   if (acc && !should) ctx.fail("soundness/stack_cutchoose/non-injective-index-map-accepted", ctx.desc.str());
   if (!acc && should) ctx.fail("soundness/stack_cutchoose/unexpected-reject-on-all-one-coins", ctx.desc.str());
 }
+
+// (e) guessing prover for the Rabin-encoding card-secret proof (TMCG_VerifyCardSecret on a TMCG_Card): the peer claims the WRONG share bit
+// of a one-bit card and simulates the quadratic-residuosity proof for one guessed challenge string (R_i = r_i^2, S_i = t / R_i when it
+// expects the R-question, S_i = s_i^2, R_i = t / S_i otherwise; answers prepared in advance).  t is a non-residue, so the prover can
+// answer each round for the guessed question only => accepted iff the verifier's coins equal the guess in every round.
+VF_SUB(rabin_cardsecret_guessing_prover, 400, 8000) {
+  size_t kappa = (size_t)ctx.c.range(1, 6), k = (size_t)ctx.c.range(1, 3), index = ctx.c.index(k); std::ostringstream d;
+  RabinPlayers P(ctx, k, d); SchindelhauerTMCG tv(kappa, k, 1); TMCG_Card c(k, 1); size_t type = ctx.c.index(2);
+  if (ctx.c.coin()) tv.TMCG_CreateOpenCard(c, P.ring, type); else { TMCG_CardSecret cs0(k, 1); tv.TMCG_CreatePrivateCard(c, cs0, P.ring, ctx.c.index(k), type); }
+  { TMCG_CardSecret cs1(k, 1); TMCG_Card cc(k, 1); tv.TMCG_CreateCardSecret(cs1, P.ring, ctx.c.index(k)); tv.TMCG_MaskCard(c, cc, cs1, P.ring); c = cc; }
+  const TMCG_SecretKey &sk = *P.sk[index]; const TMCG_PublicKey &pk = P.ring.keys[index]; Z m(pk.m), y(pk.y), z(&c.z[index][0]);
+  bool is_qr = tmcg_mpz_qrmn_p(z.get_mpz_t(), sk.p, sk.q); int claim = is_qr ? 1 : 0; // the wrong bit
+  Z t = claim == 0 ? z : zmod(z * zinv(y, m), m); // claim 1: the QR proof runs on z / y
+  std::vector<int> guess(kappa), coins(kappa); bool same = ctx.c.prob(1, 3); for (size_t i = 0; i < kappa; i++) { guess[i] = ctx.c.coin(); coins[i] = same ? guess[i] : (int)ctx.c.coin(); }
+  std::vector<Z> R(kappa), S(kappa), ans(kappa);
+  for (size_t i = 0; i < kappa; i++) { Z r; do { r = zrand_below(ctx, m - 3) + 2; } while (zinv(r, m) == 0); Z sq = zmod(r * r, m), other = zmod(t * zinv(sq, m), m); ans[i] = r; if (guess[i]) { R[i] = sq; S[i] = other; } else { S[i] = sq; R[i] = other; } }
+  Relay rl; bool acc = false; TMCG_CardSecret acc_cs(k, 1);
+  rl.run(ctx.c.seed64(), ctx.c.seed64(),
+    [&](std::iostream &io) { io << claim << std::endl; if (claim == 1) io << z62(t) << std::endl;
+      unsigned long sec = 0; io >> sec; io.ignore(1, '\n'); for (size_t i = 0; i < kappa; i++) io << z62(R[i]) << std::endl << z62(S[i]) << std::endl;
+      mpz_t foo; mpz_init(foo); for (size_t i = 0; i < kappa && i < sec; i++) { io >> foo; if (!io.good()) break; io << z62(ans[i]) << std::endl; } mpz_clear(foo); },
+    [&](std::iostream &io) { std::vector<int> fr; for (int cbit : coins) fr.push_back(cbit ? 0xFF : 0x00); rng_script_requests(fr); acc = tv.TMCG_VerifyCardSecret(c, acc_cs, pk, index, io, io); }, nullptr);
+  std::string sent, gs; for (size_t i = 1; i < rl.v_lines.size(); i++) sent += (rl.v_lines[i] == "0" ? '0' : '1'); for (int b : guess) gs += b ? '1' : '0';
+  bool should = sent.size() == kappa && sent == gs;
+  ctx.desc << "rabin card-secret proof" << d.str() << " k=" << k << " prover=P" << index << " true share bit " << (is_qr ? 0 : 1) << " claimed " << claim << " kappa=" << kappa << " guess=" << gs << " coins-sent=" << sent << " accepted=" << acc;
+  ctx.label(should ? "guess==coins" : "guess!=coins"); ctx.label(claim ? "claims-non-residue" : "claims-residue"); ctx.label("kappa=" + std::to_string(kappa)); ctx.nontrivial(ctx.desc.str());
+  if (acc && !should) ctx.fail("soundness/rabin_cardsecret/guessing-prover-accepted-for-other-coins", ctx.desc.str());
+  if (!acc && should) ctx.fail("soundness/rabin_cardsecret/guessing-prover-rejected-on-its-guess", ctx.desc.str());
+}
